@@ -552,6 +552,229 @@ class RaceSuite(Suite):
         return msgs
 
 
+T_HARNESS = ("h_signal_t", ["h_signal_t.cpp"], {"extra_flags": ["-fno-access-control", "-I/verif/harness/shim"]})
+
+
+def linearise(case, out):
+    """Baton trace -> the equivalent sequential history in the grammar of h_signal.cpp, ordered by the linearisation
+    points (first successful CAS of a listener = `listen`/`connect`, the collector's exchange = `emit`, the
+    destructor's exchange = `drop`).  Observations are attached to the operation that caused them: a value to the
+    collector call that emitted it (values are unique), a cancellation to the disconnection (or to the listener's own
+    `listen` when it found the emitter already disconnected), a release to the call on which the callback answered false
+    or to the disconnection.  Returns (S-case, S-output) or raises ValueError on an unparsable trace."""
+    threads = [l.split() for l in case["lines"] if l.startswith("t ")]
+    kind = {i: t[1] for i, t in enumerate(threads)}
+    arg = {i: (t[2] if len(t) > 2 else "-") for i, t in enumerate(threads)}
+    ops = []            # [op text, head, {tid: [event]}]
+    sid = {}            # thread id -> listener id in the sequential history
+    pending = {}        # collector tid -> value announced, exchange not yet seen
+    emit_at, rel_of = {}, {}
+    drop_at = None
+    nvals = {}
+    final = None
+
+    def new_listener(tid):
+        sid[tid] = len(sid)
+        if kind[tid] == "cb":
+            ops.append(["connect %s" % arg[tid], "connect C%d" % sid[tid], {}])
+        else:
+            ops.append(["listen %s" % arg[tid], "listen L%d" % sid[tid], {}])
+        return len(ops) - 1
+
+    def disconnect():
+        ops.append(["drop 0", "drop last=1", {}])
+        return len(ops) - 1
+
+    for line in out:
+        w = line.split()
+        if not w:
+            continue
+        if w[0] == "op":
+            if w[2] == "emit":
+                pending[w[1]] = int(w[3])
+            elif w[1] == "ctl" and drop_at is None:
+                drop_at = disconnect()
+        elif w[0] == "ret":
+            rel_of[int(w[3])] = w[4]
+        elif w[0] == "s":
+            tag = next((x for x in w[2:3] if re.match(r"a\d+$", x)), None)
+            rest = w[3:] if tag else w[2:]
+            if not rest:
+                continue
+            if rest[0] == "xchg":
+                if w[1] in pending:
+                    v = pending.pop(w[1])
+                    ops.append(["emit rv %d" % v, None, {}])
+                    emit_at[v] = len(ops) - 1
+                elif drop_at is None:
+                    drop_at = disconnect()
+                else:
+                    raise ValueError("second destructor exchange")
+            elif rest[0] == "cas+" and tag is not None:
+                tid = int(tag[1:])
+                if tid not in sid:
+                    new_listener(tid)
+        elif w[0] == "obs":
+            tid = int(w[1][1:])
+            what = w[2]
+            if tid not in sid:
+                at = new_listener(tid)          # never subscribed: it found the emitter disconnected
+            elif what.startswith("v"):
+                v = int(what[1:])
+                if v not in emit_at:
+                    raise ValueError("value %d observed but never emitted" % v)
+                at = emit_at[v]
+                nvals[tid] = (nvals.get(tid, (0, 0))[0] + 1, v)
+            elif what == "free" and kind[tid] == "cb" and nvals.get(tid, (0, 0))[0] == int(arg[tid]) + 1:
+                at = emit_at[nvals[tid][1]]
+            else:
+                if drop_at is None:
+                    raise ValueError("%s before any disconnection" % line)
+                at = drop_at
+            ops[at][2].setdefault(tid, []).append(what)
+        elif w[0] == "final":
+            final = w[1:]
+        elif w[0] in ("deadlock", "crash", "assert-failed"):
+            raise ValueError(line)
+    if final is None:
+        raise ValueError("no final line")
+    lines, sout = ["case 0 sig int"], []
+    for text, head, evs in ops:
+        if head is None:
+            v = int(text.split()[2])
+            head = "emit " + rel_of.get(v, "rel=?")
+        lines.append(text)
+        es = []
+        for tid in sorted(evs, key=lambda t: sid[t]):
+            pre = ("C" if kind[tid] == "cb" else "L") + str(sid[tid]) + ":"
+            es += [pre + e for e in evs[tid]]
+        sout.append(head + (" ; " + " ".join(es) if es else ""))
+    lines.append("end")
+    sout.append("end " + " ".join(final))
+    return {"id": 0, "lines": lines}, sout
+
+
+class BatonSuite(Suite):
+    """real threads under the baton scheduler (deterministic): listeners and callbacks subscribe on their own threads
+    while the collector thread emits / destroys the handles, one scheduling point after every CAS / exchange on the
+    chain.  The trace is linearised into the sequential grammar; the property is evaluated on that history, and the
+    same history is run through the Lean model (accept mode: the model follows the implementation's linearisation)."""
+    name = "signal-baton"
+    harness = T_HARNESS
+    driver = None
+    compare = False
+    corpus_prefix = "c15t_"
+    chunk = 25
+    nontrivial_rule = "a subscription's CAS and a collector / destructor exchange are interleaved (neither thread ran alone)"
+
+    SUBS = ["sub -", "sub x", "sub rx", "sub rrx", "cb 0", "cb 1", "cb 9"]
+
+    def __init__(self):
+        self.lin = {}
+        self.model_diffs = []
+        self.model_checked = 0
+
+    def gen_cases(self, rng, tier):
+        cases = []
+
+        def mk(threads, sched):
+            return {"id": 0, "lines": ["case 0 sigt"] + ["t " + t for t in threads] + ["sched " + " ".join(map(str, sched)), "end"]}
+
+        n = 1200 if tier == "quick" else 30000
+        for _ in range(n):
+            nsub = rng.choice([1, 1, 2, 2, 3, 4])
+            col = ["e"] * rng.randint(0, 4)
+            if rng.random() < 0.6:
+                col.insert(rng.randint(0, len(col)), "d") if rng.random() < 0.3 else col.append("d")
+            threads = ["col " + " ".join(col)] + [rng.choice(self.SUBS) for _ in range(nsub)]
+            rng.shuffle(threads)
+            nt = len(threads)
+            sched = []
+            while len(sched) < rng.randint(0, 10 * nt):
+                sched += [rng.randrange(nt)] * (1 if rng.random() < 0.6 else rng.randint(2, 4))
+            cases.append(mk(threads, sched))
+        if tier != "quick":
+            # every schedule of length 9 of collector + one subscriber, and of length 7 with two subscribers
+            import itertools
+            for colp in ("e e d", "e d", "d e", "e e"):
+                for sub in self.SUBS:
+                    for sc in itertools.product((0, 1), repeat=9):
+                        cases.append(mk(["col " + colp, sub], sc))
+            for colp in ("e e d", "e d"):
+                for s1, s2 in (("sub -", "cb 0"), ("sub x", "sub -"), ("cb 1", "cb 0"), ("sub rx", "cb 1")):
+                    for sc in itertools.product((0, 1, 2), repeat=7):
+                        cases.append(mk(["col " + colp, s1, s2], sc))
+        return cases
+
+    def nontrivial(self, case, out):
+        first = {}
+        for l in out:
+            w = l.split()
+            if w and w[0] == "s" and any(k in w for k in ("cas+", "xchg")):
+                first.setdefault(w[1], len(first))
+        return len(first) >= 2
+
+    def oracle(self, case, out):
+        cid = str(case["id"])
+        self.lin.pop(cid, None)
+        for l in out:
+            if l.startswith("crash") or l.startswith("assert-failed") or l.startswith("deadlock"):
+                return ["crash: %s under the schedule (see the trace)" % l]
+        scase, sout = linearise(case, out)
+        self.lin[cid] = (case, scase, sout)
+        return run_prop(scase, sout).msgs
+
+    def stats(self, cases, outs):
+        """input distribution + the accept-mode model comparison of every linearised history"""
+        from vlib import core
+        st = {"threads": {}, "collector_programs": {}, "schedule_len_max": 0, "ops_logged": 0, "cas_failures": 0,
+              "subscribe_after_disconnect": 0, "destructor_on_subscriber_thread": 0}
+        for c in cases:
+            for l in c["lines"]:
+                w = l.split()
+                if w[0] == "t":
+                    key = " ".join(w[1:]) if w[1] != "col" else "col"
+                    st["threads"][key] = st["threads"].get(key, 0) + 1
+                    if w[1] == "col":
+                        k = " ".join(w[2:])
+                        st["collector_programs"][k] = st["collector_programs"].get(k, 0) + 1
+                elif w[0] == "sched":
+                    st["schedule_len_max"] = max(st["schedule_len_max"], len(w) - 1)
+            o = outs.get(str(c["id"]), [])
+            colt = [str(i) for i, l in enumerate(x for x in c["lines"] if x.startswith("t ")) if l.split()[1] == "col"]
+            for l in o:
+                w = l.split()
+                if w and w[0] == "s":
+                    st["ops_logged"] += 1
+                    st["cas_failures"] += "cas-" in w
+                    if "xchg" in w and w[1] not in colt:
+                        st["destructor_on_subscriber_thread"] += 1
+        todo = [self.lin[str(c["id"])] for c in cases if str(c["id"]) in self.lin]
+        st["subscribe_after_disconnect"] = sum(1 for _, sc, so in todo for l in so if l.startswith("listen") and ":canceled" in l)
+        self.model_diffs = []
+        self.model_checked = 0
+        if todo:
+            scs = []
+            for i, (c, sc, so) in enumerate(todo):
+                scs.append({"id": i, "lines": ["case %d sig int" % i] + sc["lines"][1:]})
+            try:
+                mo = core.run_cases(core.driver_exe("drv_c15"), scs, chunk=400, timeout=300)
+            except Exception as e:     # no driver: reported by the sequential suite already
+                mo = {}
+            for i, (c, sc, so) in enumerate(todo):
+                m = mo.get(str(i))
+                if m is None or m["rc"] != 0:
+                    continue
+                self.model_checked += 1
+                d = core.first_diff(m["out"], so)
+                if d is not None:
+                    self.model_diffs.append({"case": c["lines"], "linearised": sc["lines"], "impl_linearised": so, "model": m["out"],
+                                             "diff": "line %d: model `%s` impl `%s`" % d})
+        st["linearised_histories_run_through_model"] = self.model_checked
+        st["model_disagreements"] = len(self.model_diffs)
+        return st
+
+
 def script_nogate(rng):
     return rng.choice(["-", "x", "rx", "rrx", "-"])
 
@@ -580,8 +803,21 @@ class C15(Spec):
                    "a listener coroutine is not destroyed while it is subscribed (the API has no unsubscribe)",
                    "callbacks do not throw and do not call the collector re-entrantly"]
 
+    def __init__(self):
+        self._suites = [SigSuite(), BatonSuite(), RaceSuite()]
+
     def suites(self):
-        return [SigSuite(), RaceSuite()]
+        return self._suites
+
+    def extra_checks(self, ctx):
+        """a linearised baton history on which model and implementation differ (no oracle failed on it)"""
+        for s in self._suites:
+            diffs = getattr(s, "model_diffs", None)
+            if diffs:
+                ctx["violations"].append({"kind": "unproved", "msg": "no-failing-input-found",
+                                          "payload": {"suite": s.name, "case": diffs[0]["case"], "correspondence": diffs[0],
+                                                      "disagreements": len(diffs)},
+                                          "signature": {"suite": s.name, "msg": "model-disagreement"}})
 
 
 SPEC = C15()
